@@ -137,7 +137,7 @@ package hotspot
 //@   witness T = thrOf(c.baseTrafficShapingController, arg)
 //@   witness batch = batchCount
 //@   witness dur = c.durationInSec
-//@   replay hotspot_throttling_spacing
+//@   replay hotspot_throttling_spacing for spacing
 //@   ensures[other-values-untouched] forall k Iface :: k != arg ==> cellOf(tc, k) == old(cellOf(tc, k))
 //@   loop 1:
 //@     invariant[untouched-so-far] gCache == old(gCache) && frame()
